@@ -299,7 +299,10 @@ def _jsonable(v: Any) -> Any:
         json.dumps(v)
         return v
     except Exception:
-        return repr(v)
+        try:
+            return repr(v)
+        except Exception:
+            return f"<unreprable {type(v).__name__}>"
 
 
 def _data_repr(d: Any) -> Any:
